@@ -61,7 +61,7 @@ theorem list_roundtrip_addpath (f : Fam) (ns : List (Nat × f.Val))
 /-! ### the well-formedness predicates cover everything the parsers return -/
 
 /-- Every value a parser returns is well-formed: `wf` excludes nothing that can
-be received.  (For IPv4 FlowSpec this holds after the repair F25.) -/
+be received.  (For IPv4 FlowSpec this holds after the repair F28.) -/
 theorem dec_wf (f : Fam) (bs : Bytes) (n : f.Val) (r : Bytes) (h : (codec f).dec bs = .ok (n, r)) :
     (codec f).wf n = true := codec_dec_wf f bs n r h
 
@@ -141,5 +141,51 @@ theorem wf_bitsFit (f : Fam) (n : f.Val) (hw : (codec f).wf n = true) : bitsFit 
   cases hb : bitsFit f n
   · rw [(compose_total_partial f n).mpr hb] at he; cases he
   · rfl
+
+/-! ### K10: values holding a field the wire image does not carry as given -/
+
+/-- which model values stand for a value of the Rust type at all: the type's own invariant
+(`inv`), an EVPN route type that is a value of `EvpnRouteType` (the non-normalised
+`Unimplemented(1..=5)` = 257..=261 included), a FlowSpec `afi` that is a u16 -/
+def typeValid : (f : Fam) → f.Val → Bool
+  | .evpn, n => rtypeValid n.rtype
+  | .v4fs, n | .v6fs, n => decide (n.afi < 65536)
+  | f, n => (codec f).inv n
+
+/-- Full statement of "for every NLRI value, encoding then decoding yields an equal value and
+consumes exactly the encoded bytes" over every value of the Rust types – false of the code (K10;
+also false through K3, where `enc` panics, but the witnesses below do not rely on that). -/
+def RoundTripAllStatement : Prop :=
+  ∀ (f : Fam) (n : f.Val), typeValid f n = true →
+    ∀ bs, (codec f).enc n = .ok bs → (codec f).dec bs = .ok (n, [])
+
+/-- K10 witness 1: `EvpnNlri { route_type: Unimplemented(2), raw: [] }` (serde-built) composes to
+`02 00`, which decodes to `MacIpAdvertisement` – a different, `!=` value. -/
+theorem roundtrip_all_fails : ¬ RoundTripAllStatement := by
+  intro h
+  have := h .evpn ⟨258, []⟩ (by decide) [2, 0] (by decide)
+  revert this; decide
+
+/-- K10 witness 2: an `Ipv4FlowSpecNlri` holding `afi = Ipv6` composes to octets that decode to
+the one holding `afi = Ipv4`. -/
+theorem roundtrip_all_fails_flowspec :
+    (codec .v4fs).enc ⟨2, [3, 0x81, 6]⟩ = .ok [3, 3, 0x81, 6] ∧
+    (codec .v4fs).dec [3, 3, 0x81, 6] = .ok (⟨1, [3, 0x81, 6]⟩, []) := by decide
+
+/-- The provable part: on the well-formed values (`wf`: exactly what the parsers return plus what
+serde builds inside the same space – in particular a normalised route type and the family's
+afi) the statement holds. -/
+theorem roundtrip_all_partial (f : Fam) (n : f.Val) (hw : (codec f).wf n = true) :
+    ∀ bs, (codec f).enc n = .ok bs → (codec f).dec bs = .ok (n, []) := by
+  obtain ⟨bs', he, hd⟩ := roundtrip_exact f n [] hw
+  intro bs h
+  rw [he] at h; cases h
+  simpa using hd
+
+/-- what `wf` excludes beyond the type's own validity is, for EVPN and FlowSpec, exactly K10
+(and the body lengths the length fields cannot carry) -/
+theorem wf_evpn_iff (n : Evpn) :
+    (codec .evpn).wf n = true ↔ (n.rtype < 256 ∧ n.raw.length ≤ 255) := by
+  simp [codec, evpnCodec]
 
 end Rc.Thm.C05
